@@ -327,7 +327,9 @@ func (d *db) GetSequenceUpdates(prefixKey string) (SequenceWaiter, error) {
 		err = multierr.Append(err, sw.Close())
 		return nil, err
 	} else if it.Valid() {
-		sw.och.WriteLast(it.Key())
+		// The waiter is already registered: an update that arrived since then is newer than what
+		// this read saw and must not be overwritten by it
+		sw.och.WriteIfEmpty(it.Key())
 	}
 
 	_ = it.Close()
